@@ -51,6 +51,9 @@ structure TCfg where
   oracle : PyOracle
   exprTypes : List String := ["python", "string", "not", "exists", "import", "structure"]
   defaultType : String := "python"
+  /-- are character entities inside `${…}` decoded?  Yes in markup; no in a text template (`Interpolation.decode_htmlentities`,
+  set from `MacroProgram.escape`; D-20b repaired in /repo) -/
+  decodeInterp : Bool := true
 
 /-- `decode_htmlentities` on a token: the five XML entities and numeric references
 (named HTML entities beyond these are outside the model) -/
